@@ -3,6 +3,7 @@
    any order and whatever failed before, on a reader opened over ANY byte string: no row of
    the run is a Crash row.  Proved once for any tame stream, then instantiated with the cursor
    (hist_plain) and with the encryption layer over a cursor (hist_enc, TotalEnc.v). *)
+From MLA Require Import Limit.
 From MLA Require Import Base Stream Blocks Reader EncLayer Inst Run Total TotalFooter TotalReader TotalEnc.
 From Coq Require Import ZifyBool ZifyNat ZifyN.
 Open Scope N_scope.
@@ -23,6 +24,7 @@ Lemma err_row_total {A} (x : res A) : total x -> hd 0 (err_row x) <> 2.
 Proof. destruct x as [a|e|c]; cbn; [lia|lia|tauto]. Qed.
 
 Section RunTotal.
+  Context {LIM : Limit}.
   Variable k : consts.
   Variable S : Stream.
   Variable I : st S -> Prop.
@@ -139,8 +141,9 @@ Section RunTotal.
     no_crash_rows (hist_run k S fuel s0 names ops).
   Proof.
     intros Hs Hf. unfold hist_run.
-    pose proof (ropen_tame S I pos M HT s0 Hs) as H.
-    destruct (ropen S s0) as [r|e|c].
+    (* Run.hist_run opens with the production limit (Run.RUN_LIMIT) *)
+    pose proof (ropen_tame (LIM := RUN_LIMIT) S I pos M HT s0 Hs) as H.
+    destruct (ropen (LIM := RUN_LIMIT) S s0) as [r|e|c].
     - apply ncr_cons; [cbn; lia|]. apply hist_ops_safe; [exact (proj1 H)|exact Hf].
     - apply ncr_cons; [cbn; lia|apply ncr_nil].
     - contradiction.
